@@ -54,12 +54,35 @@ Theorem C19_mode_independent : S_mode_independent.
 Proof. exact mode_independent. Qed.
 Print Assumptions C19_mode_independent.
 
-(** the faithful model of [iterate]/[run] with all its bookkeeping and mode switches, on
-    either store, with or without transpose: the counters after every iteration are those
-    of the synchronous iteration (hence, by C19_ball, the join over the ball) *)
+(** the faithful model of [iterate]/[run] as the code is NOW ([ic.local = ic.pre_local &&
+    ic.systolic]) with all its bookkeeping and mode switches, on either store, with or
+    without transpose: the counters after every iteration are those of the synchronous
+    iteration (hence, by C19_ball, the join over the ball) *)
 Theorem C19_concrete : S_concrete_full.
 Proof. exact concrete_full. Qed.
 Print Assumptions C19_concrete.
+
+(** the neighbourhood function of the repaired code is exact: after every iteration
+    [self.last] (the value before the monotone clamp) is the sum over all nodes of the
+    size of the counter of that round -- the scan of a standard iteration and the systolic
+    compensation [last + sum over modified v of (size (new v) - size (old v))] are exact,
+    for every semilattice, every [size], every initial counters, store, transpose, bound;
+    with a monotone [size] and initial total size [n] the clamp is the identity and the
+    recorded sequence is the neighbourhood function of the synchronous iteration *)
+Theorem C19_nf_exact : S_nf_exact.
+Proof. exact nf_exact. Qed.
+Print Assumptions C19_nf_exact.
+
+(** instance with no hypothesis on [size]: bit sets with their cardinality, singletons as
+    initial counters; the recorded sequence is the exact neighbourhood function *)
+Theorem C19_nf_exact_bits : S_nf_exact_bits.
+Proof. exact nf_exact_bits. Qed.
+Print Assumptions C19_nf_exact_bits.
+
+(** the repaired code never runs a local iteration that is not systolic *)
+Theorem C19_local_systolic : S_local_systolic.
+Proof. exact local_systolic. Qed.
+Print Assumptions C19_local_systolic.
 
 (** the per-node writes of an iteration commute: any order of the blocks gives the same array *)
 Theorem C19_schedule : S_schedule.
@@ -75,11 +98,20 @@ Theorem C19_stable_code : S_stable_code.
 Proof. exact stable_code. Qed.
 Print Assumptions C19_stable_code.
 
-(** DEFECT: the faithful model of [iterate] reaches a local, non-systolic iteration whose
-    neighbourhood-function entry is not the sum of the sizes (counters are right) *)
+(** REPAIRED DEFECT, statement about the PRE-repair rule [ic.local = ic.pre_local] (model
+    [hb_run_prefix] = [hb_run_gen false]; the code no longer behaves so): that model reaches
+    a local, non-systolic iteration whose neighbourhood-function entry is not the sum of the
+    sizes (counters are right) *)
 Theorem C19_nf_refuted : S_nf_refuted.
 Proof. exact nf_refuted. Qed.
 Print Assumptions C19_nf_refuted.
+
+(** on the same witness the repaired rule goes through a pre-local iteration, runs no local
+    non-systolic iteration and records the exact value (non-vacuity of C19_nf_exact on a
+    run that exercises the repaired branch) *)
+Theorem C19_nf_witness_repaired : S_nf_witness_repaired.
+Proof. exact nf_witness_repaired. Qed.
+Print Assumptions C19_nf_witness_repaired.
 
 (** non-vacuity: on the path 0 -> 1 -> 2 the second iteration legally skips nodes 1 and 2,
     the third skips everything, and the result is the synchronous iteration *)
@@ -113,3 +145,16 @@ Proof.
   apply (within_step _ 1 0 1 2); [left; reflexivity|].
   apply (within_step _ 0 1 2 2); [left; reflexivity|]. apply within_refl.
 Qed.
+
+(** non-vacuity of C19_nf_exact_bits: a run with transpose that goes through standard,
+    systolic, pre-local and local iterations and records the exact neighbourhood function
+    of the graph (number of pairs within distance t, t = 0, 1, 2, ...) *)
+Example C19_nf_example :
+  let g : graph := [[1]; [2]; [3]; [4]; [5]; [6]; [7]; []; []; []; []; []; []; []; []; []] in
+  let gt : graph := [[]; [0]; [1]; [2]; [3]; [4]; [5]; [6]; []; []; []; []; []; []; []; []] in
+  let states := hb_run (list bool) bits_join bits_eqb [] bits_size false true g gt 16 (singletons 16) in
+  transposeb g gt = true /\
+  existsb (fun s => c_sys _ s && c_local _ s) states = true /\
+  existsb (fun s => c_sys _ s && negb (c_local _ s)) states = true /\
+  rev (c_nf _ (last states (init_state _ [] (singletons 16)))) = [16; 23; 29; 34; 38; 41; 43; 44; 44]%Z.
+Proof. cbv zeta. repeat split; vm_compute; reflexivity. Qed.
